@@ -16,6 +16,16 @@ CLAIMED = {
    note="Trusted: Coq kernel, extraction+OCaml driver, timer_drv.c (sets st->time, calls iv_run_timers directly), ASan/UBSan; radix tree modelled as partial map + depth (node allocation/union aliasing not modelled); expiries as Z ns",
    technique="Coq proof (heap invariant with one-suspect sift invariants, refinement to finite map) + extracted-model differential correspondence",
    ref="4 C05"),
+ "C17": dict(
+   text="Proof (Coq): for every history of init/pump/destroy calls over any number of pumps and EVERY oracle sequence of read/splice/write/FIONREAD answers (all chunkings, back-pressure, EOF offsets, error points, EINTR), in both transfer modes: written ++ buffered = consumed (no loss, duplication, reordering), shutdown only after EOF and drain and only with RELAY_EOF, return code -1/0/1 exactly as documented and 0 stays 0, the last set_bands of each call reflects the state (read/write mode: pin <-> not full /\\ no EOF with full <-> 4096 bytes buffered; splice mode: pout whenever full), buffer cache <= 20. Tie: real iv_fd_pump.c with linker-interposed read/write/splice/ioctl/shutdown answering from the same oracle script (splice data moved through the real internal pipe) vs extracted model; Coq monitor on implementation traces. Partial: in splice mode `pin <-> space remains` is refuted for oracle answers no consistent kernel gives (EAGAIN from splice with source data and pipe room): C17_splice_pin_iff_space_refuted; pumping again after -1 is outside the contract (C17_pump_after_error_unsafe).",
+   note="Trusted: Coq kernel, extraction+OCaml driver, pump_drv.c interposition/splice emulation, ASan/UBSan; kernel side is an arbitrary oracle; pipe modelled by byte content with capacity 65536; cache list by its length; not modelled: iv_list surgery of the cache, grab_pipe/cloexec, builds without splice",
+   technique="Coq proof (simulation model -> byte-relay specification, lifted to histories) + extracted-model differential correspondence",
+   ref="4 C17"),
+ "C20": dict(
+   text="Proof (Coq): byte-level inotify record codec round-trips; for every read buffer (several events, with and without names) and every handler script, events are delivered in buffer order to the watch currently registered with that wd and to no other; IN_IGNORED / one-shot watches are out of the set before their handler runs; a handler may unregister itself, other watches or the instance: nothing unregistered earlier in the read is delivered to and the freed instance is never touched (no UseAfterFree/WildWrite outcome on any history); unregistering a fresh instance is safe (term initialised; regression of that fix is a modelled WildWrite). Tie: real iv_inotify.c with interposed inotify_init/add_watch/rm_watch/read, poisoned individually-freed structs under ASan, fd handler invoked directly vs extracted model; Coq monitor on implementation traces.",
+   note="Trusted: Coq kernel, extraction+OCaml driver (its rc/dump checks around the Coq monitor are unproved), inotify_drv.c, ASan/UBSan; watch set modelled as sorted association list (AVL tree justified by C16); reads return whole records, len multiple of 4 (kernel pads to 16); scripts do not unregister a watch the library already dropped (API contract)",
+   technique="Coq proof (codec round-trip + dispatch-loop invariant) + extracted-model differential correspondence",
+   ref="4 C20"),
 }
 NA_REASON = "not claimed yet: the model/theorem/tie for this property is still being built (see DESIGN.md section 7 order of work)"
 
